@@ -20,6 +20,7 @@ def hexFull (b : Bytes) : String := String.join (b.map hexOfByte)
 def showRes : Res → String
   | .ok s => "ok " ++ hexFull s
   | .errFew => "err few"
+  | .errThreshold => "err threshold"
   | .errDecode => "err decode"
   | .panic s => "panic " ++ showSite s
 
